@@ -58,6 +58,8 @@ func NewHTTPS2HTTPSPlugin(_ PluginContext, options v1.ClientPluginOptions) (Plug
 
 	tr := &http.Transport{
 		TLSClientConfig: &tls.Config{InsecureSkipVerify: true},
+		// don't add "Accept-Encoding: gzip" to requests and don't decode responses
+		DisableCompression: true,
 	}
 
 	rp := &httputil.ReverseProxy{
